@@ -658,6 +658,7 @@ func (self *Core) runInstruction(instruction compiler.Instruction) *value.VmInte
 		field, found := v.(value.ValueAnyObject).FieldsInternal[i.Value]
 		if !found {
 			self.push(value.NewNoneOption())
+			break
 		}
 		self.push(value.NewValueOption(field))
 	case compiler.Opcode_Member_Unwrap:
